@@ -44,7 +44,8 @@ def cases(tier, seed):
         if not q: add(name='%s/n4dir' % fn, fn=fn, kind='wei', n=4, weight=6000, shard_depth=10, cfg=lazy)
     for tr in ('inv', 'log'):
         add(name='distance_wei_floyd/%s/n3dir' % tr, fn='distance_wei_floyd', kind='wei', n=3, transform=tr, weight=300, shard_depth=6, cfg=dict(lazy_where=True))
-        if tr != 'inv':      # 1/min(sum of 1/w): z3 answers unknown on the reciprocal-of-reciprocal sums (measured); not claimed
+        if False:            # rout_efficiency with a transform: 1/min(sum of 1/w) resp. 1/min(sum of -log w) -- z3 answers unknown on some
+                             # paths (measured, solver-version dependent); only the untransformed routine is claimed
             add(name='rout_efficiency/%s/n3dir' % tr, fn='rout_efficiency', kind='wei', n=3, transform=tr, weight=300, shard_depth=6, cfg=dict(lazy_where=True))
     return cs
 
